@@ -43,7 +43,7 @@ const noSuchLease = "c11-no-such-lease"
 
 // primed: which worlds get the dimension — fresh boots and the reloads from the all-old-tokens configuration
 // (authorizers built by start-up and authorizers built by a reload); not multiplied with the (A -> B) pairs.
-func primed(c cfgSpec) bool { return c.From == nil }
+func primed(c cfgSpec) bool { return c.From == nil && c.Chain == nil }
 
 // row runs one row of the table and, when the reference denies it, its after-a-valid-request twins.
 func (k *checker) row(w *world, cs caseSpec) {
